@@ -197,7 +197,10 @@ def run_case(case):
         with core.chunk_sizes(**sizes), sched as trace:
             out = pipeline.run_brew(paths, learner=case["learner"], folds=case["folds"], seed=int(rng.integers(1 << 30)),
                                     test_fdr=0.1, train_fdr=0.1, max_workers=case["workers"], subset_max_train=cap,
-                                    max_iter=int(rng.integers(1, 4)), delay=0.004 if case["workers"] > 1 else 0.0)
+                                    max_iter=int(rng.integers(1, 4)), delay=0.004 if case["workers"] > 1 else 0.0,
+                                    history=(case["seed"] + case["index"]) if case["index"] % 7 in (2, 5) else None)
+        if out.get("history_prelude_completed"):
+            res.count("runs_after_history_prelude")
         extra = dict(folds=case["folds"], nfiles=case["nfiles"], keys=case["keys"], learner=case["learner"],
                      workers=case["workers"], cap=cap, fmt=case["fmt"], rows=total, chunks=sizes)
         log = out.get("log", [])
